@@ -1,6 +1,7 @@
 package main
 
 import (
+	"bytes"
 	"encoding/json"
 	"fmt"
 	"path"
@@ -169,7 +170,7 @@ func c19Gen(r *Run, rng *gen.Rng, corpus []string) *c19Inv {
 		gw.Set(victim, data)
 		inv.ProgKind = "mutated:" + desc
 	}
-	mount := rng.Pick([]string{"/sim/m", "/w/my proj", "/home/u/src"})
+	mount := rng.Pick([]string{"/sim/m", "/w/my proj", "/home/u/src", "/home/u/.dotfiles/p", "/w/proj-1.2/src"})
 	exe := rng.Pick([]string{"/sim/x", "/opt/tsh/bin"})
 	outAbs := rng.Pick([]string{"/sim/out", "/sim/out", "/w/build dir", mount, "/sim/bash", "/sim/batch", "/sim/-t", "/sim/out.d/v1.2"})
 	files := c13World(gw, r.Env, mount, exe)
@@ -836,6 +837,52 @@ func c19Round(r *Run, rng *gen.Rng, st *c19Stats, corpus []string, roundSize, sw
 	}
 	next := []*c19Inv{}
 	swept := 0
+	// older outputs whose bytes are RELATED to the new output (equal, the new output plus
+	// more, a prefix of it, one byte different, same length): the result must not depend on them
+	for n, i := range order {
+		inv, rs := invs[i], res[i]
+		if n%4 != 0 || !inv.Valid || rs.Exit != 0 || len(inv.Targets) == 0 {
+			continue
+		}
+		c := *inv
+		c.Family = "related-old-output"
+		c.Spec.Files = append([]simrt.FileSpec{}, inv.Spec.Files...)
+		outDir := absJoin(inv.Spec.Cwd, inv.OutArg)
+		base := path.Base(inv.InArg)
+		stem := base[:len(base)-len(path.Ext(base))]
+		for _, t := range uniq(inv.Targets) {
+			ref := refs[inv.refKey(t)]
+			if ref == nil || !ref.Accepted || len(ref.Script) < 4 {
+				continue
+			}
+			r := ref.Script
+			var old []byte
+			switch rng.Intn(6) {
+			case 0:
+				old = append([]byte{}, r...)
+			case 1:
+				old = append(append([]byte{}, r...), []byte("echo \"left over from an earlier version\"\n")...)
+			case 2:
+				old = append([]byte{}, r[:len(r)/2]...)
+			case 3:
+				old = append([]byte{}, r...)
+				old[rng.Intn(len(old))] ^= 0x20
+			case 4:
+				old = bytes.Repeat([]byte("x"), len(r))
+			default:
+				old = append([]byte("# older\n"), r...)
+			}
+			p := path.Join(outDir, stem+"."+extOf[t])
+			files := []simrt.FileSpec{}
+			for _, f := range c.Spec.Files {
+				if path.Clean(f.Path) != p {
+					files = append(files, f)
+				}
+			}
+			c.Spec.Files = append(files, simrt.FileSpec{Path: p, Data: old})
+		}
+		next = append(next, &c)
+	}
 	for _, i := range order {
 		inv, rs := invs[i], res[i]
 		ioEvents := []simrt.TraceEv{}
